@@ -439,7 +439,9 @@ Inductive op :=
 | OWireDag (w : nat) (orders : list (list nat))       (* w.set_run_signals_to_dag_execution() *)
 | ORunWf (w : nat) (orders : list (list nat))         (* w.run() *)
 | OWfDisconnectRun (w : nat)                          (* w.disconnect_run() *)
-| OPull (n : nat) (tree : list nat).                  (* n.pull() *)
+| OPull (n : nat) (tree : list nat)                   (* n.pull() *)
+| ORemoveLabel (w n : nat)                            (* w.remove_child(n.label) *)
+| OSetParent (n : nat) (p : option nat).              (* n.parent = p  (None, or another / the same composite) *)
 
 Definition is_kind (c : nat) (fl : flavor) (d : dir) : bool :=
   match cget c with Some x => flavor_eqb (c_flavor x) fl && dir_eqb (c_dir x) d | None => false end.
@@ -560,6 +562,21 @@ Definition replace_child (st : state) (w n m : nat) : state * res :=
     | (s1, Ok) => (add_child (swap_labels (remove_child (with_cn st s1) w n) n m) w m, Ok)
     end.
 
+(* Lexical._set_parent: nothing if unchanged; the old parent's remove_child (the Composite
+   override: it disconnects the node), then the new parent's add_child *)
+Definition set_parent (st : state) (n : nat) (p : option nat) : state :=
+  if optnat_eqb (parent st n) p then st
+  else
+    let st1 := match parent st n with Some w' => remove_child st w' n | None => st end in
+    match p with Some w => add_child st1 w n | None => st1 end.
+
+(* LexicalParent.remove_child(label): children.pop(label) *)
+Definition remove_by_label (st : state) (w n : nat) : state * res :=
+  match find (fun k => Nat.eqb (label_of st k) (label_of st n)) (children st w) with
+  | Some k => (remove_child st w k, Ok)
+  | None => (st, Err KeyErr)
+  end.
+
 Definition wf_wire (st : state) (w : nat) (orders : list (list nat)) : state * res :=
   match children st w with
   | [] => (st, Ok)
@@ -597,6 +614,8 @@ Definition step (st : state) (o : op) : state * res :=
   | ORunWf w orders => wf_wire st w orders
   | OWfDisconnectRun w => (with_cn st (disconnect_run_list s (children st w)), Ok)
   | OPull n tree => lift st (pull st n tree)
+  | ORemoveLabel w n => remove_by_label st w n
+  | OSetParent n p => (set_parent st n p, Ok)
   end.
 
 Definition exec (st : state) (ops : list op) : state := fold_left (fun st o => fst (step st o)) ops st.
@@ -637,12 +656,20 @@ Definition delta (st st' : state) : list obs :=
                     end) old new
               then [] else [OL (on c :: map OZ new)]) ids.
 
-(* per op: outcome, node labels (only when they changed), changed connection lists, and the
+(* per op: outcome, node labels (only when they changed), parents and children lists (only
+   when they changed), changed connection lists, and the
    driver's count of partners outside the universe / ill-typed strict data connections
    (0 in the model: see ChanProofs.Inv) *)
+Definition opt_code (o : option nat) : obs := match o with None => on 0 | Some w => on (S w) end.
+Definition tree_obs (st : state) : list obs :=
+  [OL (map opt_code (par st)); OL (map (fun l => OL (map on l)) (kids st))].
+Definition tree_eqb (st st' : state) : bool :=
+  obs_eqb (OL (tree_obs st)) (OL (tree_obs st')).
+
 Definition obs_op (st st' : state) (o : op) (r : res) : obs :=
   OL [OZ (res_code r);
       OL (if list_eqb (lab st) (lab st') then [] else map on (lab st'));
+      OL (if tree_eqb st st' then [] else tree_obs st');
       OL (delta st st');
       OZ 0].
 
